@@ -945,9 +945,7 @@ class WaveSpectrum(DatasetWrapper):
         coordinates: Dict[str, Union[xarray.DataArray, np.ndarray]],
         extrapolation_value: float = 0.0,
     ):
-        dataset = self.__class__(
-            xarray.Dataset(interpolate_dataset_grid(coordinates, self.dataset))
-        )
+        dataset = self.__class__(interpolate_dataset_grid(coordinates, self.dataset))
         dataset.fillna(extrapolation_value)
         return dataset
 
@@ -1342,9 +1340,9 @@ class FrequencySpectrum(WaveSpectrum):
             else:
                 _dataset = _dataset.assign({_name: self.dataset[_name]})
 
-        interpolated_data = xarray.Dataset(interpolate_dataset_grid(
+        interpolated_data = interpolate_dataset_grid(
             coordinates, _dataset, nearest_neighbour
-        ))
+        )
         for name in _moments:
             interpolated_data[name] = (
                 interpolated_data[name] / interpolated_data[NAME_E]
